@@ -278,6 +278,8 @@ class Generated:
         self.line_fn = {}        # line -> function name (generated)
         self.trusted = []
         self.rules_fired = {}
+        self.notes = []
+        self.auto_prefixes = set()
 
 
 def read_fragment(kind, name):
@@ -408,6 +410,28 @@ def build(unit_path, repo=None, extra_tail='', twins_only=False):
                     g.rules_fired['R21'] = g.rules_fired.get('R21', 0) + 1
         if it.rename:
             sig = re.sub(r'\bfn\s+' + re.escape(item.name) + r'\b', 'fn ' + it.rename, sig, count=1)
+        if 'c20' in getattr(it, 'auto', []) and not getattr(it, '_auto_done', False) and re.search(r'\bworld\s*:\s*&mut\s+World\b', sig):
+            it._auto_done = True
+            mret = re.search(r'->\s*(.*?)\s*(?:where\b|$)', norm_sp(sig))
+            rt = mret.group(1) if mret else ''
+            rn = it.ret or 'r'
+            cexpr = None
+            if re.match(r'^VfsResult\s*<', rt):
+                cexpr = 'no_fault(*old(world), *final(world)) || %s is Err' % rn
+            elif re.match(r'^Option\s*<\s*VfsResult\s*<', rt):
+                cexpr = 'no_fault(*old(world), *final(world)) || (%s is Some && %s->Some_0 is Err)' % (rn, rn)
+            if cexpr:
+                it.ret = rn
+                labs = [c.label for c in it.clauses if c.label] + [h[0] for h in it.hints]
+                pref = '.'.join(labs[0].split('.')[:2]) if labs and labs[0].count('.') >= 1 else (it.rename or item.name)
+                if pref in g.auto_prefixes:
+                    pref = pref + '.' + (it.rename or item.name)
+                g.auto_prefixes.add(pref)
+                it.clauses.append(vspec.Clause('ensures', ['C20'], pref + '.c20_no_silent_fault', cexpr, it.lineno))
+                if 'C20' not in it.props:
+                    it.props = list(it.props) + ['C20']
+            else:
+                g.notes.append('no C20 clause for %s (return type %s)' % (where, rt))
         if it.ret:
             sig = name_return(sig, it.ret)
         fname = '%s::%s' % (norm_sp(header) if header else '', it.rename or item.name)
@@ -513,6 +537,11 @@ def build(unit_path, repo=None, extra_tail='', twins_only=False):
         if wsrc not in sources:
             sources[wsrc] = SourceFile(os.path.join(repo, wsrc))
         try:
+            if wpath.endswith(':: *'):
+                # method list of an impl block: a newly added (or removed) method - e.g. an override of a trait default - changes it
+                names = sources[wsrc].method_names(wpath[:-4].strip())
+                g.watched['%s :: %s' % (wsrc, wpath)] = {'sha': sha(' '.join(names)), 'tags': wtags, 'methods': names}
+                continue
             witem = sources[wsrc].find(wpath)
             g.watched['%s :: %s' % (wsrc, wpath)] = {'sha': sha(witem.text), 'tags': wtags}
         except Undecided:
